@@ -76,20 +76,35 @@ func ParseConsumerOffsetKey(key string) (string, string, int32, bool) {
 	if !strings.HasPrefix(key, prefix) {
 		return "", "", 0, false
 	}
-	trimmed := strings.TrimPrefix(key, prefix)
-	parts := strings.Split(trimmed, "/")
-	if len(parts) != 4 {
+	// The key is <group>/offsets/<topic>/<partition>. Group ids are free-form and
+	// may contain '/' themselves, topic names cannot, so the fixed tail is taken
+	// off from the right and whatever remains is the group id.
+	rest := strings.TrimPrefix(key, prefix)
+	cut := func() (string, bool) {
+		i := strings.LastIndex(rest, "/")
+		if i < 0 {
+			return "", false
+		}
+		part := rest[i+1:]
+		rest = rest[:i]
+		return part, true
+	}
+	partitionPart, ok := cut()
+	if !ok {
 		return "", "", 0, false
 	}
-	groupID := parts[0]
-	if parts[1] != "offsets" || groupID == "" || parts[2] == "" {
-		return "", "", 0, false
-	}
-	partition, err := strconv.ParseInt(parts[3], 10, 32)
+	partition, err := strconv.ParseInt(partitionPart, 10, 32)
 	if err != nil {
 		return "", "", 0, false
 	}
-	return groupID, parts[2], int32(partition), true
+	topic, ok := cut()
+	if !ok || topic == "" {
+		return "", "", 0, false
+	}
+	if marker, ok := cut(); !ok || marker != "offsets" || rest == "" {
+		return "", "", 0, false
+	}
+	return rest, topic, int32(partition), true
 }
 
 // BrokerRegistrationKey returns the etcd key for broker liveness data.
